@@ -37,6 +37,10 @@ type suFan struct {
 	dev     *verifhook.Device
 	cfg     configuration.FanConfig
 	spinAt  int // device model: rpm = 0 below this pwm, else 10*pwm
+	// inertia: after a PWM write the RPM register keeps moving for `drift` more polls (virtual sleeps) before it rests at
+	// rpmOf(pwm): a fan that takes long to settle
+	drift     int64
+	driftLeft int64
 	evalSeq int64
 }
 
@@ -98,7 +102,11 @@ func suNewFan(a kv) *suFan {
 		suRecord(f.id, e)
 		// the device model: RPM follows the PWM register
 		f.dev.Rpm = f.rpmOf(f.dev.Pwm)
+		if f.drift > 0 && strings.HasPrefix(e, "pwm=") {
+			atomic.StoreInt64(&f.driftLeft, f.drift)
+		}
 	}
+	f.drift = int64(a.int("drift", 0))
 	if q := a.int("quant", 0); q > 1 {
 		f.dev.Resp = func(v int) int { return (v / q) * q }
 	}
@@ -323,7 +331,12 @@ func init() {
 			yield := time.Duration(a.int("yield_us", 0)) * time.Microsecond
 			verifhook.SleepHook = func(d time.Duration) {
 				for _, f := range suFans {
-					_ = f
+					if f.drift > 0 {
+						if l := atomic.LoadInt64(&f.driftLeft); l > 0 {
+							atomic.AddInt64(&f.driftLeft, -1)
+							f.dev.Rpm = f.rpmOf(f.dev.Pwm) + int(l)*37
+						}
+					}
 				}
 				if yield > 0 {
 					time.Sleep(yield)
